@@ -383,6 +383,10 @@ type hsVerdict struct {
 func hsJudgeReplies(d *hsDraws, pub *rsa.PublicKey, r [][]byte) hsVerdict {
 	v := hsVerdict{}
 	bad := func(s string) hsVerdict { v.Why = s; return v }
+	// "<field> differs" with the two 128-bit strings
+	differs := func(field string, got []byte, what string, want []byte) string {
+		return fmt.Sprintf("%s differs: %x, %s is %x", field, got, what, want)
+	}
 	if len(r) < 3 {
 		return bad("fewer than three replies")
 	}
@@ -407,10 +411,10 @@ func hsJudgeReplies(d *hsDraws, pub *rsa.PublicKey, r [][]byte) hsVerdict {
 		return bad("reply 1 is malformed")
 	}
 	if !bytes.Equal(nonce, d.Nonce) {
-		return bad("reply 1: nonce differs")
+		return bad(differs("reply 1: nonce", nonce, "the client's nonce", d.Nonce))
 	}
 	if !found {
-		return bad("reply 1: no fingerprint of the client's key")
+		return bad(fmt.Sprintf("reply 1: no fingerprint of the client's key (modulus %x…, public exponent %d: fingerprint %016x) among the %d offered", pub.N.Bytes()[:4], pub.E, want, cnt))
 	}
 	pqn := new(big.Int).SetBytes(pq)
 	if pqn.Cmp(big.NewInt(4)) < 0 || pqn.ProbablyPrime(20) {
@@ -427,10 +431,10 @@ func hsJudgeReplies(d *hsDraws, pub *rsa.PublicKey, r [][]byte) hsVerdict {
 		return bad("reply 2 is malformed")
 	}
 	if !bytes.Equal(nonce2, d.Nonce) {
-		return bad("reply 2: nonce differs")
+		return bad(differs("reply 2: nonce", nonce2, "the client's nonce", d.Nonce))
 	}
 	if !bytes.Equal(sn2, sn) {
-		return bad("reply 2: server_nonce differs")
+		return bad(differs("reply 2: server_nonce", sn2, "the server_nonce of resPQ", sn))
 	}
 	if len(enc) == 0 || len(enc)%16 != 0 {
 		return bad("reply 2: encrypted_answer is not a positive multiple of 16 bytes")
@@ -463,10 +467,10 @@ func hsJudgeReplies(d *hsDraws, pub *rsa.PublicKey, r [][]byte) hsVerdict {
 		return bad("answer is malformed")
 	}
 	if !bytes.Equal(nonce3, d.Nonce) {
-		return bad("answer: nonce differs")
+		return bad(differs("answer: nonce", nonce3, "the client's nonce", d.Nonce))
 	}
 	if !bytes.Equal(sn3, sn) {
-		return bad("answer: server_nonce differs")
+		return bad(differs("answer: server_nonce", sn3, "the server_nonce of resPQ", sn))
 	}
 	P := new(big.Int).SetBytes(dhPrime)
 	if P.Sign() == 0 {
@@ -487,13 +491,13 @@ func hsJudgeReplies(d *hsDraws, pub *rsa.PublicKey, r [][]byte) hsVerdict {
 		return bad("reply 3 is malformed")
 	}
 	if !bytes.Equal(nonce4, d.Nonce) {
-		return bad("reply 3: nonce differs")
+		return bad(differs("reply 3: nonce", nonce4, "the client's nonce", d.Nonce))
 	}
 	if !bytes.Equal(sn4, sn) {
-		return bad("reply 3: server_nonce differs")
+		return bad(differs("reply 3: server_nonce", sn4, "the server_nonce of resPQ", sn))
 	}
-	if !bytes.Equal(h1, hsNonceHash(d.NewNonce, 1, v.AuthKey)) {
-		return bad("reply 3: new_nonce_hash1 differs")
+	if want := hsNonceHash(d.NewNonce, 1, v.AuthKey); !bytes.Equal(h1, want) {
+		return bad(differs("reply 3: new_nonce_hash1", h1, "the hash of new_nonce and the key", want))
 	}
 	v.Consistent = true
 	return v
@@ -944,8 +948,13 @@ func hsOpenClientFrameID(authKey, pkt []byte) (salt int64, msgID uint64, body []
 	iv := append(append(append(append([]byte{}, a[8:20]...), b[0:8]...), c[16:20]...), d[0:8]...)
 	pt := hsIGE(key, iv, pkt[24:], false)
 	l := int(int32(binary.LittleEndian.Uint32(pt[28:32])))
-	if l < 0 || 32+l > len(pt) || len(pt)-32-l > 15 {
+	if l < 0 || 32+l > len(pt) {
 		return 0, 0, nil, fmt.Sprintf("inner length %d of %d decrypted bytes", l, len(pt))
+	}
+	// "... message_data_length, message_data, padding 0..15": what follows the declared length is padding, and a
+	// message with more of it than a block needs is not what the description defines
+	if pad := len(pt) - 32 - l; pad > 15 {
+		return 0, 0, nil, fmt.Sprintf("%d bytes of padding after a message of %d bytes (header 32 + message_data_length %d; MTProto 1.0 allows 0..15)", pad, 32+l, l)
 	}
 	if !bytes.Equal(hsSha1(pt[:32+l])[4:20], mk) {
 		return 0, 0, nil, "msg_key is not SHA1(plaintext)[4:20]"
@@ -1021,8 +1030,9 @@ type hsRun struct {
 	Srv      *hsSrvResult
 	RandUsed int
 	Overrun  int
-	FirstEnc string // "" not attempted; "readable:<body hex>" / why not
-	EncEarly int    // encrypted frames the server had seen when CreateConnection returned (or hung)
+	FirstEnc string   // "" not attempted; "readable:<body hex>" / why not
+	Opened   []string // the same for every encrypted frame the server saw, in order
+	EncEarly int      // encrypted frames the server had seen when CreateConnection returned (or hung)
 	Addr     string
 	// history runs (hsPlan)
 	Pre, Post  []string // "<step>:<outcome>" of the steps before / after the judged exchange
@@ -1170,6 +1180,7 @@ type hsPlan struct {
 	Probe     bool
 	Pre, Post []string
 	After     string
+	First     []string // the requests the application issues after a completed exchange, in order (hsRequest; default: ping)
 }
 
 var (
@@ -1277,11 +1288,111 @@ func hsStopHandle(m *mtproto.MTProto) (stop func()) {
 	return nil
 }
 
-func hsPing(m *mtproto.MTProto) {
+func hsPing(m *mtproto.MTProto) { hsSend(m, "ping") }
+
+// hsSend: the application issues one request (hsRequest) through MakeRequest, on a goroutine of its own (the server
+// answers nothing, the call blocks for good).
+func hsSend(m *mtproto.MTProto, spec string) {
+	obj, _, ok := hsRequest(spec)
+	if !ok {
+		return
+	}
 	go func() {
 		defer func() { _ = recover() }()
-		_, _ = m.MakeRequest(&objects.PingParams{PingID: 0x0123456789abcdef})
+		_, _ = m.MakeRequest(obj)
 	}()
+}
+
+// The requests an application may issue first. MakeRequest takes any TL object; what matters to the envelope is the
+// LENGTH of its serialisation (a multiple of 4): 32 header bytes + body are padded to the block size, so the body
+// length modulo 16 decides how much padding there is (0 for a body of 16, 32, ... bytes).
+//
+//	ping        ping ping_id:long                                         12 bytes
+//	pingdelay   ping_delay_disconnect ping_id:long disconnect_delay:int   16 bytes (the usual keep-alive)
+//	salts       get_future_salts num:int                                   8 bytes
+//	config      help.getConfig                                             4 bytes
+//	bytes<N>    a method with one bytes argument of N bytes (0..4096):     4 + TL string of N bytes
+//	            not a schema method - any method with such an argument serialises like this
+type hsReqPingDelay struct {
+	PingID          int64
+	DisconnectDelay int32
+}
+
+func (*hsReqPingDelay) CRC() uint32 { return 0xf3427b8c }
+
+type hsReqFutureSalts struct{ Num int32 }
+
+func (*hsReqFutureSalts) CRC() uint32 { return 0xb921bd04 }
+
+type hsReqGetConfig struct{}
+
+func (*hsReqGetConfig) CRC() uint32 { return 0xc4f9186b }
+
+type hsReqBytes struct{ Data []byte }
+
+func (*hsReqBytes) CRC() uint32 { return 0xb17e5a26 }
+
+const hsPingID = 0x0123456789abcdef
+
+// hsRequest: the object handed to MakeRequest and its serialisation written by hand (what the server must find
+// inside the envelope).
+func hsRequest(spec string) (obj interface{ CRC() uint32 }, body []byte, ok bool) {
+	var w hsW
+	switch {
+	case spec == "ping":
+		w.u32(hsIDPing)
+		w.u64(hsPingID)
+		return &objects.PingParams{PingID: hsPingID}, w.b, true
+	case spec == "pingdelay":
+		w.u32(0xf3427b8c)
+		w.u64(hsPingID)
+		w.u32(75)
+		return &hsReqPingDelay{PingID: hsPingID, DisconnectDelay: 75}, w.b, true
+	case spec == "salts":
+		w.u32(0xb921bd04)
+		w.u32(3)
+		return &hsReqFutureSalts{Num: 3}, w.b, true
+	case spec == "config":
+		w.u32(0xc4f9186b)
+		return &hsReqGetConfig{}, w.b, true
+	case strings.HasPrefix(spec, "bytes"):
+		ds := spec[5:]
+		if len(ds) < 1 || len(ds) > 4 || (len(ds) > 1 && ds[0] == '0') {
+			return nil, nil, false
+		}
+		n := 0
+		for _, ch := range ds {
+			if ch < '0' || ch > '9' {
+				return nil, nil, false
+			}
+			n = n*10 + int(ch-'0')
+		}
+		if n > 4096 {
+			return nil, nil, false
+		}
+		data := make([]byte, n)
+		for i := range data {
+			data[i] = byte(i*7 + n)
+		}
+		w.u32(0xb17e5a26)
+		w.str(data)
+		return &hsReqBytes{Data: data}, w.b, true
+	}
+	return nil, nil, false
+}
+
+// hsRequestsOk: a `/`-separated list of one to four requests
+func hsRequestsOk(list string) bool {
+	specs := strings.Split(list, "/")
+	if len(specs) < 1 || len(specs) > 4 {
+		return false
+	}
+	for _, sp := range specs {
+		if _, _, ok := hsRequest(sp); !ok {
+			return false
+		}
+	}
+	return true
 }
 
 func hsExchangePlan(p *hsPlan) *hsRun {
@@ -1411,10 +1522,16 @@ func hsExchangePlan(p *hsPlan) *hsRun {
 	run.Svc = m.VerifServiceMode()
 
 	if p.Probe && run.Outcome == "ok" {
-		hsPing(m)
-		select {
-		case <-run.Srv.encSeenChan(srv):
-		case <-time.After(3 * time.Second):
+		first := p.First
+		if len(first) == 0 {
+			first = []string{"ping"}
+		}
+		for _, spec := range first {
+			hsSend(m, spec)
+			select {
+			case <-run.Srv.encSeenChan(srv):
+			case <-time.After(3 * time.Second):
+			}
 		}
 	}
 	if p.After != "" && strings.HasPrefix(run.Outcome, "err:") {
@@ -1632,6 +1749,76 @@ func hsKeyPool(r *Rand, n int) []*rsa.PrivateKey {
 	var ks []*rsa.PrivateKey
 	for i := 0; i < n; i++ {
 		ks = append(ks, hsKeyGen(r))
+	}
+	return ks
+}
+
+// hsKeyGenE: an RSA-2048 key with the public exponent e (odd, 3 <= e < 2^32), from the run's PRNG. crypto/rsa's
+// GenerateKey only makes e = 65537; nothing in MTProto fixes the exponent - rsa_public_key n:string e:string carries
+// it, the fingerprint hashes it, the client raises to it. The key is built from its definition: two 1024-bit primes p, q
+// (two top bits set: n has exactly 2048 bits) with gcd(e, p-1) = gcd(e, q-1) = 1, d = e^-1 mod (p-1)(q-1), and it is
+// CHECKED here: (m^e)^d = m mod n for a drawn m.
+func hsKeyGenE(r *Rand, e int) *rsa.PrivateKey {
+	eb := big.NewInt(int64(e))
+	one := big.NewInt(1)
+	prime := func() *big.Int {
+		for {
+			b := r.Bytes(128)
+			b[0] |= 0xc0
+			b[127] |= 1
+			p := new(big.Int).SetBytes(b)
+			if new(big.Int).GCD(nil, nil, new(big.Int).Sub(p, one), eb).Cmp(one) != 0 {
+				continue
+			}
+			if p.ProbablyPrime(20) {
+				return p
+			}
+		}
+	}
+	for {
+		p, q := prime(), prime()
+		if p.Cmp(q) == 0 {
+			continue
+		}
+		n := new(big.Int).Mul(p, q)
+		phi := new(big.Int).Mul(new(big.Int).Sub(p, one), new(big.Int).Sub(q, one))
+		d := new(big.Int).ModInverse(eb, phi)
+		if d == nil || n.BitLen() != 2048 {
+			continue
+		}
+		m := new(big.Int).SetBytes(r.Bytes(255))
+		if new(big.Int).Exp(new(big.Int).Exp(m, eb, n), d, n).Cmp(m) != 0 {
+			panic("hsKeyGenE: not an RSA key pair")
+		}
+		return &rsa.PrivateKey{PublicKey: rsa.PublicKey{N: n, E: e}, D: d, Primes: []*big.Int{p, q}}
+	}
+}
+
+// hsExponents: public exponents other than 65537 for the run's further server keys - one per length of the
+// exponent's big-endian byte string (1, 2, 3, 4 bytes), the 4-byte one with the top bit of the 32-bit word set or not:
+// a small Fermat prime (3, 5, 17: the classical choices) / 257 or a drawn 2-byte odd number / an odd number just above
+// 65537 or a drawn 3-byte odd number (never 65537) / a drawn 4-byte odd number. all: every one of them (thorough tier).
+func hsExponents(r *Rand, all bool) []int {
+	odd := func(lo, hi int) int { return (lo + r.Intn(hi-lo)) | 1 }
+	one := []int{3, 5, 17}
+	two := []int{257, odd(256, 1<<16)}
+	three := []int{65537 + 2*(1+r.Intn(64)), odd(1<<16, 1<<24)}
+	for three[1] == 65537 {
+		three[1] = odd(1<<16, 1<<24)
+	}
+	four := []int{odd(1<<24, 1<<31), odd(1<<31, 1<<32)}
+	if all {
+		return append(append(append(append([]int{}, one...), two...), three...), four...)
+	}
+	return []int{one[r.Intn(len(one))], two[r.Intn(len(two))], three[r.Intn(len(three))], four[r.Intn(len(four))]}
+}
+
+// hsKeyPoolExp: the pool of hsKeyPool followed by one key per exponent of hsExponents. "Any conformant server" and
+// "the client's key" both range over RSA keys with ANY public exponent.
+func hsKeyPoolExp(r *Rand, n int, all bool) []*rsa.PrivateKey {
+	ks := hsKeyPool(r, n)
+	for _, e := range hsExponents(r, all) {
+		ks = append(ks, hsKeyGenE(r, e))
 	}
 	return ks
 }
